@@ -188,3 +188,92 @@ Lemma remove_outside_mask opd mask modes crd res r c :
 Proof. intros Hr Hm. apply remove_ok in Hr as (cf & _ & _ & _ & _ & _ & Hg). rewrite Hg.
   rewrite (sumZ_zero_ext S Sring); [ring|]. intros i _. cbn [zernike get]. rewrite Hm. ring. Qed.
 End ZFP.
+
+(* ---------------------------------------------------------------------------------------- *)
+(* Total forms: np.linalg.pinv always returns, so the contract of [solve] for an abstract solver has
+   a second half: an independent family gets an answer. *)
+Lemma modes_ok_range (modes : list Z) :
+  (forall i, 0 <= i < Z.of_nat (length modes) -> 1 <= nthmode modes i) -> modes_ok modes = true.
+Proof. intros H. unfold modes_ok. destruct (existsb (fun j => j <? 1) modes) eqn:E; [|reflexivity].
+  apply existsb_exists in E as (x & Hin & Hx). apply (In_nth _ _ 0) in Hin as (n & Hn & Hnth).
+  specialize (H (Z.of_nat n)). unfold nthmode in H. rewrite Nat2Z.id, Hnth in H. lia. Qed.
+
+Section ZFT.
+Variable S : Scalar.
+Hypothesis Sring : is_ring S.
+Hypothesis FR : formally_real S.
+Variable Crd : Type.
+Variable is0 : S -> bool.
+Variable zpoly : bool -> option Crd -> Z -> Z -> Z -> S.
+Variable solve : Z -> Z -> (Z -> Z -> S) -> (Z -> S) -> result (list S).
+Hypothesis solve_sound : forall k N B y c,
+  solve k N B y = Ok c -> Z.of_nat (length c) = k /\ NE k N B y (nthZ c).
+Hypothesis solve_total : forall k N B y, indep k N B -> exists c, solve k N B y = Ok c.
+
+Notation compose := (zernike_compose is0 zpoly).
+Notation bmat := (basis_mat is0 zpoly).
+Notation fit := (zernike_fit is0 zpoly solve).
+Notation remove := (zernike_remove is0 zpoly solve).
+Notation klen modes := (Z.of_nat (length modes)).
+Notation npix mask := (nr mask * nc mask).
+
+Lemma fit_total opd mask modes nrm crd :
+  modes_ok modes = true -> nr opd * nc opd = npix mask ->
+  indep (klen modes) (npix mask) (bmat mask modes nrm crd) ->
+  exists c, fit opd mask modes nrm crd = Ok c.
+Proof. intros Hm Hs Hi. unfold zernike_fit. rewrite Hm. cbn [negb].
+  replace (nr opd * nc opd =? npix mask) with true by lia. cbn [negb]. apply solve_total. exact Hi. Qed.
+
+Lemma remove_total opd mask modes crd :
+  modes_ok modes = true -> nr opd = nr mask -> nc opd = nc mask ->
+  indep (klen modes) (npix mask) (bmat mask modes true crd) ->
+  exists res, remove opd mask modes crd = Ok res.
+Proof. intros Hm E1 E2 Hi. destruct (fit_total opd mask modes true crd Hm) as [c Hc]; [rewrite E1, E2; reflexivity|exact Hi|].
+  unfold zernike_remove. rewrite Hc. cbn [rbind]. replace ((nr opd =? nr mask) && (nc opd =? nc mask)) with true by lia.
+  cbn [negb]. eexists. reflexivity. Qed.
+
+Lemma fit_compose_id_total mask n modes (cs : list S) nrm crd :
+  0 <= n -> (forall i, 0 <= i < klen modes -> 1 <= nthmode modes i <= n) ->
+  length cs = length modes ->
+  indep (klen modes) (npix mask) (bmat mask modes nrm crd) ->
+  fit (compose mask (scatter n modes cs) nrm crd) mask modes nrm crd = Ok cs.
+Proof. intros Hn Hm Hl Hi.
+  destruct (fit_total (compose mask (scatter n modes cs) nrm crd) mask modes nrm crd) as [c Hc].
+  - apply modes_ok_range. intros i Hi'. specialize (Hm i Hi'). lia.
+  - reflexivity.
+  - exact Hi.
+  - rewrite Hc. f_equal.
+    exact (fit_compose_id S Sring FR Crd is0 zpoly solve solve_sound mask n modes cs c nrm crd Hn Hm Hl Hi Hc). Qed.
+
+Lemma remove_is_projection opd mask modes crd :
+  modes_ok modes = true -> nr opd = nr mask -> nc opd = nc mask ->
+  indep (klen modes) (npix mask) (bmat mask modes true crd) ->
+  exists res, remove opd mask modes crd = Ok res /\
+    (exists c', fit res mask modes true crd = Ok c' /\ length c' = length modes /\
+                forall i, 0 <= i < klen modes -> nthZ c' i = k0) /\
+    (exists res', remove res mask modes crd = Ok res' /\ nr res' = nr res /\ nc res' = nc res /\
+                  forall r c, get res' r c = get res r c).
+Proof. intros Hm E1 E2 Hi. destruct (remove_total opd mask modes crd Hm E1 E2 Hi) as [res Hr].
+  exists res. split; [exact Hr|].
+  pose proof (remove_ok S Crd is0 zpoly solve _ _ _ _ _ Hr) as (c & _ & _ & _ & R1 & R2 & _).
+  destruct (remove_total res mask modes crd Hm) as [res' Hr']; [congruence|congruence|exact Hi|].
+  pose proof (remove_ok S Crd is0 zpoly solve _ _ _ _ _ Hr') as (c' & Hc' & _).
+  split.
+  - exists c'. split; [exact Hc'|]. split.
+    + apply (fit_ok S Crd is0 zpoly solve solve_sound) in Hc'. tauto.
+    + exact (remove_fit_zero S Sring FR Crd is0 zpoly solve solve_sound _ _ _ _ _ _ Hi Hr Hc').
+  - exists res'. split; [exact Hr'|].
+    exact (remove_idempotent S Sring FR Crd is0 zpoly solve solve_sound _ _ _ _ _ _ Hi Hr Hr'). Qed.
+
+Lemma remove_compose_zero_total mask n modes (cs : list S) crd :
+  0 <= n -> (forall i, 0 <= i < klen modes -> 1 <= nthmode modes i <= n) ->
+  length cs = length modes ->
+  indep (klen modes) (npix mask) (bmat mask modes true crd) ->
+  exists res, remove (compose mask (scatter n modes cs) true crd) mask modes crd = Ok res /\
+              forall r c, get res r c = k0.
+Proof. intros Hn Hm Hl Hi.
+  destruct (remove_total (compose mask (scatter n modes cs) true crd) mask modes crd) as [res Hr];
+    [apply modes_ok_range; intros i Hi'; specialize (Hm i Hi'); lia | reflexivity | reflexivity | exact Hi |].
+  exists res. split; [exact Hr|].
+  exact (remove_compose_zero S Sring FR Crd is0 zpoly solve solve_sound mask n modes cs crd res Hn Hm Hl Hi Hr). Qed.
+End ZFT.
